@@ -66,6 +66,55 @@ harnesses! {
     fn c10_t_kmer_mdna_k1 [34] { kmer_ord::<masked::Dna, 1>(); }
     fn c10_t_kmer_miupac_k5 [34] { kmer_ord::<masked::Iupac, 5>(); }
     fn c10_t_kmer_text_k8 [34] { kmer_ord::<text::Dna, 8>(); }
+    fn c10_t_kmer_dna_k5 [34] { kmer_ord::<Dna, 5>(); }
+    fn c10_t_kmer_dna_k6 [34] { kmer_ord::<Dna, 6>(); }
+    fn c10_t_kmer_dna_k7 [34] { kmer_ord::<Dna, 7>(); }
+    fn c10_t_kmer_dna_k8 [34] { kmer_ord::<Dna, 8>(); }
+    fn c10_t_kmer_dna_k9 [34] { kmer_ord::<Dna, 9>(); }
+    fn c10_t_kmer_dna_k10 [34] { kmer_ord::<Dna, 10>(); }
+    fn c10_t_kmer_dna_k11 [34] { kmer_ord::<Dna, 11>(); }
+    fn c10_t_kmer_dna_k12 [34] { kmer_ord::<Dna, 12>(); }
+    fn c10_t_kmer_dna_k13 [34] { kmer_ord::<Dna, 13>(); }
+    fn c10_t_kmer_dna_k14 [34] { kmer_ord::<Dna, 14>(); }
+    fn c10_t_kmer_dna_k15 [34] { kmer_ord::<Dna, 15>(); }
+    fn c10_t_kmer_dna_k17 [34] { kmer_ord::<Dna, 17>(); }
+    fn c10_t_kmer_dna_k18 [34] { kmer_ord::<Dna, 18>(); }
+    fn c10_t_kmer_dna_k19 [34] { kmer_ord::<Dna, 19>(); }
+    fn c10_t_kmer_dna_k20 [34] { kmer_ord::<Dna, 20>(); }
+    fn c10_t_kmer_dna_k21 [34] { kmer_ord::<Dna, 21>(); }
+    fn c10_t_kmer_dna_k22 [34] { kmer_ord::<Dna, 22>(); }
+    fn c10_t_kmer_dna_k23 [34] { kmer_ord::<Dna, 23>(); }
+    fn c10_t_kmer_dna_k24 [34] { kmer_ord::<Dna, 24>(); }
+    fn c10_t_kmer_dna_k25 [34] { kmer_ord::<Dna, 25>(); }
+    fn c10_t_kmer_dna_k26 [34] { kmer_ord::<Dna, 26>(); }
+    fn c10_t_kmer_dna_k27 [34] { kmer_ord::<Dna, 27>(); }
+    fn c10_t_kmer_dna_k28 [34] { kmer_ord::<Dna, 28>(); }
+    fn c10_t_kmer_dna_k29 [34] { kmer_ord::<Dna, 29>(); }
+    fn c10_t_kmer_dna_k30 [34] { kmer_ord::<Dna, 30>(); }
+    fn c10_t_kmer_miupac_k1 [34] { kmer_ord::<masked::Iupac, 1>(); }
+    fn c10_t_kmer_miupac_k2 [34] { kmer_ord::<masked::Iupac, 2>(); }
+    fn c10_t_kmer_miupac_k3 [34] { kmer_ord::<masked::Iupac, 3>(); }
+    fn c10_t_kmer_miupac_k4 [34] { kmer_ord::<masked::Iupac, 4>(); }
+    fn c10_t_kmer_miupac_k6 [34] { kmer_ord::<masked::Iupac, 6>(); }
+    fn c10_t_kmer_miupac_k7 [34] { kmer_ord::<masked::Iupac, 7>(); }
+    fn c10_t_kmer_miupac_k8 [34] { kmer_ord::<masked::Iupac, 8>(); }
+    fn c10_t_kmer_miupac_k9 [34] { kmer_ord::<masked::Iupac, 9>(); }
+    fn c10_t_kmer_miupac_k10 [34] { kmer_ord::<masked::Iupac, 10>(); }
+    fn c10_t_kmer_miupac_k11 [34] { kmer_ord::<masked::Iupac, 11>(); }
+    fn c10_t_kmer_mdna_k2 [34] { kmer_ord::<masked::Dna, 2>(); }
+    fn c10_t_kmer_mdna_k3 [34] { kmer_ord::<masked::Dna, 3>(); }
+    fn c10_t_kmer_mdna_k4 [34] { kmer_ord::<masked::Dna, 4>(); }
+    fn c10_t_kmer_mdna_k5 [34] { kmer_ord::<masked::Dna, 5>(); }
+    fn c10_t_kmer_mdna_k6 [34] { kmer_ord::<masked::Dna, 6>(); }
+    fn c10_t_kmer_mdna_k7 [34] { kmer_ord::<masked::Dna, 7>(); }
+    fn c10_t_kmer_mdna_k8 [34] { kmer_ord::<masked::Dna, 8>(); }
+    fn c10_t_kmer_mdna_k9 [34] { kmer_ord::<masked::Dna, 9>(); }
+    fn c10_t_kmer_mdna_k10 [34] { kmer_ord::<masked::Dna, 10>(); }
+    fn c10_t_kmer_mdna_k11 [34] { kmer_ord::<masked::Dna, 11>(); }
+    fn c10_t_kmer_mdna_k12 [34] { kmer_ord::<masked::Dna, 12>(); }
+    fn c10_t_kmer_mdna_k13 [34] { kmer_ord::<masked::Dna, 13>(); }
+    fn c10_t_kmer_mdna_k14 [34] { kmer_ord::<masked::Dna, 14>(); }
+    fn c10_t_kmer_mdna_k15 [34] { kmer_ord::<masked::Dna, 15>(); }
     fn c10_q_kmer128_dna_k33 [36] {
         let (x, y) = (any_u128(), any_u128());
         assume(x <= mask128(66) && y <= mask128(66));
